@@ -8,7 +8,7 @@ LEVEL = "other"
 
 
 def run(rep, tier, seed):
-    proved_tier(rep, "C18", seed, expected_min_obligations=20)
+    proved_tier(rep, "C18", seed, expected_min_obligations=6)
     bounded_C18.run(rep, tier, seed)
 
 
